@@ -62,7 +62,7 @@ def correspond(ctx):
     for r_ in [x for x in tcases if x["k"] == "run"]:
         if not r_["success"]:
             c.mismatches.append({"kind": "traced-run-failed", "run": r_})
-    allc = cases + [x for x in tcases if x["k"] in ("nmove", "mineral", "denit", "denitmo", "till", "harv")]
+    allc = cases + [x for x in tcases if x["k"] in ("nmove", "mineral", "denit", "denitmo", "till", "harv", "prog")]
     nitrolib.eval_cases(ctx, c, allc)
     seen = set()
     for x in allc:
@@ -84,6 +84,11 @@ def correspond(ctx):
                    + ("/permanent-crop" if i["dauer"] else "") + ("/first-entry" if i["first"] else ""))
             c.bump("harvest:crop-row=" + ("last" if i["row"] == i["rows"] - 1 else "first" if i["row"] == 0 else "middle")
                    + ("" if i["final_newline"] else "/no-final-newline"))
+        elif x["k"] == "prog":
+            i = x["in"]
+            seen.add(("p", i["c10"], i["dtgesn"]))
+            capped = float.fromhex(x["out"]["c1"]) - float.fromhex(i["c10"]) < float.fromhex(i["dtgesn"]) - float.fromhex(i["angebot"]) - 1e-12
+            c.bump("prognosis-dressing:" + ("supply-covers" if float.fromhex(i["angebot"]) >= float.fromhex(i["dtgesn"]) else "capped" if capped else "full"))
         elif x["k"] == "till":
             seen.add(("t", x["pre"]["eint"], tuple(x["pre"]["nfos"])))
             c.bump("tillage:depth=%g" % float.fromhex(x["pre"]["eint"]))
